@@ -128,7 +128,7 @@ def _ffi_props(raw):
     """the assertions of miri/verif_ffi_miri.rs name the properties they speak for: '[C16 C19] string handed to the C host ...'"""
     import re
     ps = []
-    for m in re.finditer(r'\[((?:C\d\d ?)+)\] string handed to the C host', raw or ''):
+    for m in re.finditer(r'\[((?:C\d\d ?)+)\] (?:string handed to the C host|live heap bytes grow)', raw or ''):
         for x in m.group(1).split():
             if x not in ps:
                 ps.append(x)
